@@ -103,6 +103,18 @@ func afterC06(w *World) {
 			if nstreams != 1 {
 				continue
 			}
+			// ... and "reachable" means that the one connection the manager ever made to the node
+			// is the one that carried the stream: a connection attempt that the client gave up
+			// (the network was slower than the dial timeout) means the node was not reachable then
+			nconns := 0
+			for _, cn := range w.net.AllConns() {
+				if cn.Client == w.mgrs[c.Mgr].Name && cn.Server == addrOf(si) {
+					nconns++
+				}
+			}
+			if nconns != 1 {
+				continue
+			}
 			n := len(w.handlersFor(c, si))
 			w.rule("C06.exactly-once-when-reachable", n == 1)
 			if n != 1 {
